@@ -394,6 +394,7 @@ impl KOp {
                     let total: usize = (0..m.msg_iovlen).map(|i| unsafe { (*m.msg_iov.add(i)).iov_len }).sum();
                     if crate::flip("k.udp.loss", cx.udp_loss) {
                         crate::fault("udp-datagram-lost");
+                        crate::klog(|| format!("kernel: network: the datagram of #{} ({total} bytes) is lost", self.seq));
                         if self.opcode == OP_SENDMSG_ZC {
                             self.zc_notif_owed = true;
                             return Outcome::More(total as i32, 0);
@@ -402,6 +403,7 @@ impl KOp {
                     }
                     if crate::flip("k.udp.dup", cx.udp_dup) {
                         crate::fault("udp-datagram-duplicated");
+                        crate::klog(|| format!("kernel: network: the datagram of #{} ({total} bytes) is delivered twice", self.seq));
                         unsafe { libc::sendmsg(fd, self.addr as *const libc::msghdr, self.opflags as i32 | libc::MSG_DONTWAIT | libc::MSG_NOSIGNAL) };
                     }
                 }
